@@ -74,6 +74,7 @@ static thread_local long g_stat_throws[3] = {0, 0, 0};
 static thread_local long g_stat_unwind_emits = 0;
 static thread_local long g_stat_operand_owned = 0;
 static thread_local long g_stat_insert = 0;
+static thread_local long g_stat_in_handler = 0;
 [[noreturn]] inline void throw_harness_exc(long salt)
 {
   ++g_stat_throws[salt % 3];
@@ -843,6 +844,9 @@ struct Interp
   std::map<int, long> live; // live F copies per fid
   int depth = 0;
   int maxdepth = 6;
+  const std::string* pending_in_handler = nullptr; // next top-level line (see run_line: operations inside a catch handler)
+  bool consumed_next = false;
+  long handler_count = 0;
   long steps = 0;      // operations executed so far
   long maxsteps = 1500; // emit/callS refuse (`budget`) beyond this many operations
   bool owners = false;  // program mode `owners`: owning functors available, empty slots cannot be connected
@@ -2172,6 +2176,17 @@ struct Interp
       emitline(line + " => exc");
       if (depth > 0)
         throw;
+      // variation without a model counterpart: every other time an exception reaches the top level, the NEXT top-level
+      // operation is performed inside the catch handler (while the exception is still "current": a retry or an error
+      // report made from the handler must find the signal as consistent as later)
+      if (pending_in_handler && ++handler_count % 2 == 1)
+      {
+        const std::string next = *pending_in_handler;
+        pending_in_handler = nullptr;
+        consumed_next = true;
+        ++g_stat_in_handler;
+        run_line(next);
+      }
       return;
     }
     emitline(line + " => " + res);
@@ -2337,8 +2352,15 @@ struct Interp
       else
         top.push_back(l);
     }
-    for (const auto& l : top)
-      run_line(l);
+    for (std::size_t ti = 0; ti < top.size(); ++ti)
+    {
+      pending_in_handler = (ti + 1 < top.size()) ? &top[ti + 1] : nullptr;
+      consumed_next = false;
+      run_line(top[ti]);
+      pending_in_handler = nullptr;
+      if (consumed_next)
+        ++ti; // the following operation was already performed inside the catch handler
+    }
     teardown();
     long tot = 0;
     for (auto& kv : live)
@@ -2462,7 +2484,8 @@ int main(int argc, char** argv)
     std::cerr << "#harness-stats throws_plain=" << g_stat_throws[0] << " throws_bad_alloc=" << g_stat_throws[1]
               << " throws_runtime_error=" << g_stat_throws[2] << " emissions_during_unwinding=" << g_stat_unwind_emits
               << " operands_owned_by_a_functor=" << g_stat_operand_owned
-              << " connects_through_protected_insert=" << g_stat_insert << "\n";
+              << " connects_through_protected_insert=" << g_stat_insert
+              << " operations_inside_a_catch_handler=" << g_stat_in_handler << "\n";
     return 0;
   }
   // C19: every program in its own thread, started behind a barrier, disjoint object graphs
